@@ -242,12 +242,16 @@ class Bounded:
                     distinct_nontrivial=self.nontrivial, samples=self.samples, violations=self.violations)
 
 
-def pmap(fn, items, procs=16):
-    """Run fn over items in a fork pool (the checks are CPU bound); falls back to serial for small inputs."""
+def pmap(fn, items, procs=16, fresh=False):
+    """Run fn over items in a fork pool (the checks are CPU bound); falls back to serial for small inputs.
+    fresh=True: every item runs in its own freshly forked process (process-wide caches of the code under test start empty)."""
     items = list(items)
-    if len(items) <= 1 or procs <= 1:
+    if (len(items) <= 1 and not fresh) or procs <= 1:
         return [fn(i) for i in items]
     import multiprocessing as mp
     ctx = mp.get_context("fork")
+    if fresh:
+        with ctx.Pool(min(procs, max(1, len(items))), maxtasksperchild=1) as pool:
+            return pool.map(fn, items, chunksize=1)
     with ctx.Pool(min(procs, len(items))) as pool:
         return pool.map(fn, items, chunksize=max(1, len(items) // (procs * 4)))
